@@ -7,7 +7,8 @@ model (`-` for no rows).  `<mode>` (how the harness drives the API) is ignored: 
 is a function of the values only.  For schemas of flat fields the driver additionally
 checks, on the model's own output, the three things the theorems state — decode ∘ encode,
 encoded length = length function, byte order of consecutive rows = `compareRows` — and
-answers `MODEL-SPEC-MISMATCH` if any fails.  Map and Union fields are not modelled: `SKIP`.
+answers `MODEL-SPEC-MISMATCH` if any fails.  Every supported type is modelled (Map and Union
+included, as written in the Rust); `ERR:not-impl` mirrors `RowConverter::supports_datatype`.
 -/
 namespace ArrowModel.C11
 open ArrowModel.Proto
